@@ -726,7 +726,7 @@ func c09Vars(c *Ctx, r *Report, w, ev *ssa.Function) {
 			r.check("C09.VARS", fmt.Sprintf("%s: variable map passed to %s #%d", fnName(entry), fnName(cal), n), ci.Pos(), hasDefaults && !raw, "the map handed to resolution must be the operation's map into which every declared variable's default was stored, not the caller's raw map")
 		}
 	}
-	r.floor("C09.VARS", "resolution calls from the entry point receiving the operation's variable map", n, 2)
+	r.floor("C09.VARS", "resolution calls from the entry point receiving the operation's variable map", n, 1)
 }
 
 func posOf(ci ssa.CallInstruction) token.Pos {
